@@ -141,11 +141,15 @@ type Delivery struct {
 type Dir struct {
 	N       int
 	Arrived []bool
+	FinSeen bool // a segment with FIN or RST has arrived (they sit at the end of the stream)
 }
 
 func NewDir(n int) *Dir { return &Dir{N: n, Arrived: make([]bool, n)} }
 
 func (d *Dir) Arrive(e Event) {
+	if e.K == FIN || e.K == RST || (e.K == DATA && e.Fin) {
+		d.FinSeen = true
+	}
 	switch e.K {
 	case SYNDATA:
 		d.Arrived[0] = true
@@ -239,6 +243,13 @@ func (in *Inst) Deliver(dir *Dir, d Delivery, ctx StepCtx) (string, string) {
 	in.Pos = from + len(d.Bytes)
 	if d.End {
 		in.Ended = true
+		// the end of a direction is the sender's FIN or RST, which sits behind the last byte
+		if !dir.FinSeen {
+			return "end-without-fin", fmt.Sprintf("hand-over %d reports the end of the stream at offset %d although no FIN or RST has arrived", in.Deliveries, in.Pos)
+		}
+		if in.Pos != dir.N {
+			return "end-before-the-fin-position", fmt.Sprintf("hand-over %d reports the end of the stream at offset %d, the sender's FIN sits at %d", in.Deliveries, in.Pos, dir.N)
+		}
 	}
 	return "", ""
 }
